@@ -52,6 +52,9 @@ def from_real(o):
 	m = {"dir": "rx", "ver": o.ver, "fn": o.fn, "tn": o.tn, "rssi": o.rssi,
 	     "toa256": o.toa256, "nope": bool(o.nope_ind),
 	     "soft": None if o.burst is None else list(o.burst)}
+	if o.ver == 0 and o.burst is not None:
+		# not carried by a version-0 header: guessed from the burst length by the decoder
+		m["mod_guess"] = _NAME_BY_MOD.get(getattr(o.mod_type, "name", None))
 	if o.ver >= 1:
 		m["ci"] = o.ci
 		if not o.nope_ind:
